@@ -152,11 +152,13 @@ const P2G_HEADERS: &[&str] = &[
 
 fn finish(rng: &mut Rng, header: &str, mut rows: Vec<String>) -> String {
     rng.shuffle(&mut rows);
-    let mut s = String::from(header);
-    s.push('\n');
-    s.push_str(&rows.join("\n"));
+    // line ends: `\n`, or `\r\n` throughout (a file that went through a Windows tool)
+    let nl = if rng.chance(1, 6) { "\r\n" } else { "\n" };
+    let mut s = String::from(header).replace('\n', nl);
+    s.push_str(nl);
+    s.push_str(&rows.join(nl));
     if !rows.is_empty() && !rng.chance(1, 6) {
-        s.push('\n');
+        s.push_str(nl);
     }
     s
 }
